@@ -416,6 +416,7 @@ static void job_gost(char **a) { /* id sbox ksz key data */
 int main(void) {
 	static char line[1 << 17];
 	char *a[24];
+	int wd_cpu = getenv("CIPHER_DRV_WD_CPU") ? atoi(getenv("CIPHER_DRV_WD_CPU")) : 0;
 	vh_install_fault_handler();
 	while (fgets(line, sizeof(line), stdin)) {
 		int n = 0; char *save = NULL, *t;
@@ -424,7 +425,10 @@ int main(void) {
 		for (t = strtok_r(line, " \t\r\n", &save); t && n < 24; t = strtok_r(NULL, " \t\r\n", &save)) a[n++] = t;
 		if (n == 0) continue;
 		vh_set_tag(tag);
-		alarm(600);
+		/* per-job non-termination watchdog: CIPHER_DRV_WD_CPU seconds of CPU time (wall clock backstop: 6 times that), sized by
+		 * the check per tier (a quick-tier job costs < 0.5 s of CPU time under ASan, a thorough one up to ~30 times more);
+		 * without the variable: 600 s of wall clock */
+		if (wd_cpu > 0) vh_watchdog((unsigned)wd_cpu, (unsigned)(6 * wd_cpu)); else alarm(600);
 		snprintf(g_id, sizeof(g_id), "%s", n > 1 ? a[1] : "-");
 		if (!strcmp(a[0], "selftest")) {
 			int c = chacha_self_test(), g = gost28147_self_test();
